@@ -5,7 +5,7 @@ from ..core import Property, unparse, norm
 from ..sym import Interp, S, term, show, subterms
 from .. import intv, mut
 from ..layout import plus_to_cat
-from .common_sig import N, fast, sigrange, argorder, SELF
+from .common_sig import N, fast, sigrange, argorder, verify_args, SELF
 
 PROP = Property(
     'C13', 'ECDSA: low-S, nonce provenance, r/s range, DER from normalised pair, curve membership',
@@ -132,7 +132,14 @@ PROP.obligation('C13.argorder', canaries=[
 ])(argorder)
 
 
+PROP.obligation('C13.verify-args', canaries=[
+    mut.replace_expr('keys', 'Signature.verify', 'txid is not None', 'txid is not None and (not self.txid)', 'verify: digest argument ignored when one is remembered'),
+    mut.replace_expr('keys', 'Signature.verify', 'public_key is not None', 'public_key is not None and (not self.public_key)', 'verify: key argument ignored when one is remembered'),
+])(verify_args)
+
+
 @PROP.obligation('C13.parse', canaries=[
+    mut.replace_expr('keys', 'Signature.parse_bytes', "len(signature) > 64 and signature.startswith(b'0')", "signature.startswith(b'0')", 'parse_bytes: 64-byte r||s starting with 0x30 treated as DER'),
     mut.replace_expr('keys', 'Signature.parse_bytes', 'signature[32:]', 'signature[:32]', 'parse_bytes: s read from the r half'),
 ])
 def parse(ctx):
@@ -160,6 +167,21 @@ def parse(ctx):
             ctx.require(r_t[1][1] == s_t[1][1], q, 'r and s are read from different buffers', e.node)
     ctx.require(any(x.kind == 'raise' and any(isinstance(t, tuple) and t[0] == 'cmp' and t[1] == '!=' and t[3] == 64 for t, pol in x.pc if pol) for x in exits), q,
                 'no raise when the (r||s) form is not 64 bytes long', fn)
+    # a 64-byte input is ALWAYS the compact r||s form, whatever its first byte
+    sig = ('var', 'signature')
+    starts = [s_ for e in exits for s_ in subterms(('w', term(e.value)) if e.value is not None else ('w',)) if isinstance(s_, tuple) and s_[0] == 'mcall' and s_[2] == 'startswith' and s_[1] == sig]
+    sub = {('len', sig): 64}
+    for st_ in set(starts):
+        sub[st_] = True
+    for e in rets:
+        if not intv.exit_feasible(e, sub):
+            continue
+        rv = intv.specialise(term(e.value), sub)
+        r_t = rv[2][0]
+        ctx.saw('64-byte input starting with 0x30: r = %s' % show(r_t)[:80])
+        ok = isinstance(r_t, tuple) and r_t[0] == 'bytes2int' and isinstance(r_t[1], tuple) and r_t[1][0] == 'slice' and r_t[1][1] == sig
+        ctx.require(ok, q, 'a 64-byte signature whose first byte is 0x30 is not read as compact r||s (r = %s)' % show(r_t)[:100], e.node,
+                    'about 1 in 256 valid compact signatures is rejected or misparsed as DER')
 
 
 @PROP.obligation('C13.der', canaries=[
